@@ -582,7 +582,9 @@ func runCases(casesPath string, n int, dirv string, workersv int) []*houtcome {
 	}
 	wg.Wait()
 	// a deadline overrun, OOM or fatal error seen under 16-fold parallel load is confirmed by running the case on its own
-	// (four at a time). A change that makes hundreds of cases hang would otherwise cost 40 s each: the first confirmations
+	// (four at a time) with a deadline of 120 s of CPU time: the slowest legitimate cases (multi-GiB buffers requested and zeroed
+	// before the data turns out to be missing) take 5-15 s of CPU, several times that when the machine is oversubscribed.
+	// A change that makes hundreds of cases hang would otherwise cost 120 s each: the first confirmations
 	// of a signature (class, entry point, source kind, record, field, kind) are run, the remaining cases of that signature
 	// are reported as "unconfirmed" (no verdict; counted in the evidence).
 	type job struct{ i int }
@@ -610,7 +612,7 @@ func runCases(casesPath string, n int, dirv string, workersv int) []*houtcome {
 			key = fmt.Sprintf("%s|%s|%v|%s|%s|%s", oc.Class, c.EP, c.Seek, c.Rec, c.Fld, c.Kind)
 		}
 		seen[key]++
-		if seen[key] > 4 && len(jobs) >= 64 {
+		if seen[key] > 3 && len(jobs) >= 24 {
 			outcomes[i] = &houtcome{I: i, Class: "unconfirmed", Where: oc.Class + " under load, not re-run: " + oc.Where}
 			continue
 		}
@@ -625,7 +627,7 @@ func runCases(casesPath string, n int, dirv string, workersv int) []*houtcome {
 			defer func() { <-sem }()
 			of := fmt.Sprintf("%s/confirm-%d.txt", *dir, i)
 			os.Remove(of)
-			cmd := exec.Command(self, "hostile-worker", "-cases", casesPath, "-from", fmt.Sprint(i), "-to", fmt.Sprint(i+1), "-out", of, "-deadline", "40s")
+			cmd := exec.Command(self, "hostile-worker", "-cases", casesPath, "-from", fmt.Sprint(i), "-to", fmt.Sprint(i+1), "-out", of, "-deadline", "120s")
 			err := cmd.Run()
 			b, _ := os.ReadFile(of)
 			if err == nil {
